@@ -359,7 +359,7 @@ func (p *Project) WithProfiles(profiles []string) (*Project, error) {
 	}
 	newProject.Services = enabled
 	newProject.DisabledServices = disabled
-	newProject.Profiles = profiles
+	newProject.Profiles = append([]string{}, profiles...)
 	return newProject, nil
 }
 
